@@ -2,7 +2,7 @@
 # Run every check against every stored seeded change (16 at a time); print one line per seed and
 # compare with the expected_checks recorded in seeded/INDEX.json.
 mkdir -p /tmp/seedsweep; rm -f /tmp/seedsweep/*.log
-ls -d /verif/seeded/*/ | xargs -P 16 -I{} sh -c 't=$(basename {}); /verif/tools/sweep_seed.sh {}/patch.diff $t > /tmp/seedsweep/$t.log 2>&1'
+ls -d ${VERIF_HOME:-/verif}/seeded/*/ | xargs -P 16 -I{} sh -c 't=$(basename {}); ${VERIF_HOME:-/verif}/tools/sweep_seed.sh {}/patch.diff $t > /tmp/seedsweep/$t.log 2>&1'
 python3 - <<'PY'
 import json, glob, os, re
 idx = json.load(open("/verif/seeded/INDEX.json"))
